@@ -36,7 +36,7 @@ CHECKS = {
          "Each D entry point is compared with the 64-bit function applied to the reference-quantised input with scalars x 10^p, structure identical and coordinates within 1 ulp of the exact unscaling; trees identical with scale 10^p; quantiser helpers incl. ties; out-of-range precisions must panic with ErrPrecisionRange on all 14 D entry points.",
          "finite float alphabet; 64-bit counterparts trusted here (decided by the other checks)", "DESIGN.md 4/C07"),
  "C08": ("bounded-exhaustive enumeration of patterns x paths against the union-of-parallelograms reference on a witness lattice",
-         "Every (pattern, path, closed/open, sum/diff) of the scopes is run through the real Minkowski functions; witnesses robustly inside a reference parallelogram (depth > 2) must be inside, witnesses > 2 from all parallelograms outside; result canonical; arguments exchanged for closed paths.",
+         "Every (pattern, path, closed/open, sum/diff) of the scopes is run through the real Minkowski functions; witnesses robustly inside a reference parallelogram (depth > 2) must be inside, witnesses > 2 from all parallelograms outside; result canonical; arguments exchanged for closed paths; the same inputs translated by vectors of both signs up to 2^52 (result translated back) and scaled by 1.07e8 ... 2^54 (exact 128-bit winding at images of base witnesses).",
          "patterns <= 4 vertices, paths <= 4 points; float64 distances with guard", "DESIGN.md 4/C08"),
  "C09": ("bounded-exhaustive enumeration of open lines x clips (x closed subjects) x 16 configurations against exact winding classification of sampled line points",
          "Every open polyline of the scopes against every clip (and a three-party scope for Union) x clip types x fill rules through ExecuteOC (and ClipperD / tree execution on a stride); each segment sampled at 16 rational parameters, classified by exact winding when > 2 units from closed edges, compared with coverage by the open solution; open solution stays on the lines; closed solution unaffected.",
@@ -48,13 +48,13 @@ CHECKS = {
          "All open polylines of P(R5,2..5), R6, sheared lattice, 6 other rectangles through the four line-clipping entry points: vertices in rect+1 and on the line, sampled interior points covered / exterior not, input order, one piece per crossing segment, every result segment along the input line.",
          "<= 5 vertices; float64 distances with guard", "DESIGN.md 4/C11"),
  "C12": ("explicit-state breadth-first search over operation histories of the real engine objects (state = structural dump hash, successor = replay + 1 operation), plus an exhaustive input-immutability sweep",
-         "BFS over histories of AddPaths/Execute/ExecuteOC/ExecutePolyTree (all solution-argument aliasing modes) on Clipper64, ClipperD and ClipperOffset up to depth 5-7; every execute transition is compared with a fresh engine given the same paths; caller-owned inputs compared with pristine copies; every path-level call on P(3,0..4) with before/after deep comparison incl. spare capacity.",
+         "BFS over histories of AddPaths/Execute/ExecuteOC/ExecutePolyTree (all solution-argument aliasing modes) on Clipper64, ClipperD and ClipperOffset up to depth 5-7; every execute transition is compared with a fresh engine given the same paths; caller-owned inputs compared with pristine copies; paths held by a solution argument on entry must not be overwritten in place; every path-level call on P(3,0..4) with before/after deep comparison incl. spare capacity.",
          "history depth and AddPaths count bounded; states merged by a dump covering every reachable field incl. stale slice tails", "DESIGN.md 4/C12"),
  "C13": ("exhaustive enumeration of base inputs x a finite magnitude grid (4 translations, 8 scalings up to 2^56, 5 scalings centred on the origin) with exact 128-bit winding oracles evaluated at transformed witnesses",
-         "Boolean operations, Area64, PointInPolygon, SimplifyPath64, RectClipPaths64 and InflatePaths64 are run on translated/scaled copies of every base input; the transformed solution is read with exact 128-bit arithmetic at the images of base witnesses and compared with the exact reference answer of the base input.",
+         "Boolean operations, Area64, PointInPolygon, SimplifyPath64, RectClipPaths64, RectClipLinesPaths64 and InflatePaths64 are run on translated/scaled copies of every base input; the transformed solution is read with exact 128-bit arithmetic at the images of base witnesses and compared with the exact reference answer of the base input.",
          "finite magnitude grid; base inputs <= 5 vertices", "DESIGN.md 4/C13"),
  "C16": ("exhaustive enumeration of small paths x epsilons x closed/open with exact big-integer distance oracle and translation/scale/D-variant differential runs",
-         "Every path of P(3,3..6), P(4,4[,5]) under three embeddings x 7 epsilons x closed/open through SimplifyPath64/D/Paths: sub-sequence, ends kept, no retained vertex clearly within epsilon (exact), area kept at epsilon 0, identical retained vertices under 2 translations, 4 integer scalings and 4 power-of-two float scalings.",
+         "Every path of P(3,3..6), P(4,4[,5]) under three embeddings x 7 epsilons x closed/open through SimplifyPath64/D/Paths: sub-sequence, ends kept, no retained vertex clearly within epsilon (exact), area kept at epsilon 0, identical retained vertices under 2 translations, 4 integer scalings and 4 power-of-two float scalings; Paths variants with 3-4 paths of different lengths per call equal to the single-path results; open paths under epsilons up to +Inf keep their end points.",
          "<= 6 (7) vertices; 1e-9 relative guard at the epsilon boundary", "DESIGN.md 4/C16"),
  "C17": ("exhaustive enumeration of base inputs x their orbit of respellings (metamorphic region equality on the exact witness lattice) plus double execution and cross-process shard-hash comparison",
          "For every base input and applicable configuration every start rotation, repeated closing/any vertex, reversal law, subject/clip exchange, path permutation and lattice symmetry is executed and must give a region-equal result; 45 representative API calls are executed twice in-process and in two passes by different worker processes with identical outputs.",
